@@ -70,3 +70,236 @@ def partial_orders(rng, dims, k=None):
     """a duplicate-free sublist of dims in random order"""
     k = rng.randint(1, len(dims)) if k is None else k
     return rng.sample(dims, k)
+
+
+# ----------------------------------------------------------------------------- selectors
+def rand_sel(rng, coords):
+    n = len(coords)
+    cs = [Fraction(x) for x in coords]
+    lo, hi = min(cs), max(cs)
+    grid = [lo - 2, lo - Fraction(1, 4), lo, lo + (hi - lo) / 3, (lo + hi) / 2 + Fraction(1, 8), hi, hi + Fraction(1, 2), hi + 3]
+    c = rng.random()
+    if c < 0.2:
+        return {"int": rng.randint(-n, n - 1)}
+    if c < 0.35:
+        return {"flt": str(rng.choice(grid))}
+    if c < 0.4:
+        return {"tup1": str(rng.choice(grid))}
+    if c < 0.75:
+        return {"range": [str(rng.choice(grid)), str(rng.choice(grid))]}
+    vals = [None, -3, -2, -1, 0, 1, 2, 3]
+    step = rng.choice([None, 1, 2, -1, -2, 3])
+    return {"slice": [rng.choice(vals), rng.choice(vals), step]}
+
+
+class Hist:
+    """builds one random history over the public operation alphabet, tracking just enough
+    state (dims and shapes of each object) to keep most operations valid"""
+
+    def __init__(self, rng, max_objs=4, cplx=None):
+        self.rng, self.ops, self.meta, self.max_objs, self.cplx = rng, [], {}, max_objs, cplx
+        self.next_id = 0
+
+    def fresh(self, **kw):
+        op = new_op(self.rng, self.next_id, cplx=self.cplx if self.cplx is not None else None, **kw)
+        self.meta[self.next_id] = {"dims": list(op["dims"]), "shape": list(op["shape"]),
+                                   "coords": [list(c) for c in op["coords"]], "unfolded": False}
+        self.ops.append(op)
+        self.next_id += 1
+        return op["id"]
+
+    def out_id(self):
+        i = self.next_id
+        self.next_id += 1
+        return i
+
+    def pick(self):
+        return self.rng.choice(sorted(self.meta))
+
+    def forget(self, i):
+        """after an op whose effect on shape we do not track precisely"""
+        self.meta.pop(i, None)
+
+    def step(self, allow=None):
+        rng = self.rng
+        if not self.meta:
+            self.fresh(attrs=rng.random() < 0.4, hist=rng.randint(0, 2))
+            return
+        i = self.pick()
+        m = self.meta[i]
+        dims = m["dims"]
+        kinds = allow or ["reorder", "sort_dims", "rename", "sort", "new_dim", "squeeze", "getitem", "binop_self",
+                          "binop_new", "scalarop", "method", "np_reduce", "np_unary", "np_binary", "copy",
+                          "unfold_fold", "concat", "set_attr", "add_hist", "setitem", "np_scalar", "new", "arrayop",
+                          "concatenate", "split", "set_value"]
+        k = rng.choice(kinds)
+        O = self.ops
+        if k == "new":
+            if len(self.meta) < self.max_objs:
+                self.fresh(attrs=rng.random() < 0.4, hist=rng.randint(0, 2))
+        elif k == "reorder":
+            arg = partial_orders(rng, dims)
+            O.append({"op": "reorder", "obj": i, "dims": arg}); self.permute(i, arg + [d for d in dims if d not in arg])
+        elif k == "sort_dims":
+            O.append({"op": "sort_dims", "obj": i}); self.permute(i, sorted(dims))
+        elif k == "rename":
+            new = rng.choice([x for x in DIM_POOL + ["q1", "q2", "q3"] if x not in dims])
+            old = rng.choice(dims)
+            O.append({"op": "rename", "obj": i, "dim": old, "new": new})
+            m["dims"][dims.index(old)] = new
+        elif k == "sort":
+            dm = rng.choice(dims)
+            O.append({"op": "sort", "obj": i, "dim": dm})
+            kx = dims.index(dm)
+            m["coords"][kx] = [str(x) for x in sorted(Fraction(c) for c in m["coords"][kx])]
+        elif k == "new_dim":
+            if len(dims) < 4:
+                new = rng.choice([x for x in DIM_POOL + ["q1", "q2", "q3"] if x not in dims])
+                c = str(rng.randint(-3, 9))
+                O.append({"op": "new_dim", "obj": i, "dim": new, "coord": c})
+                m["dims"].append(new); m["shape"].append(1); m["coords"].append([c])
+        elif k == "squeeze":
+            if any(s != 1 for s in m["shape"]):
+                O.append({"op": "squeeze", "obj": i})
+                keep = [j for j, s in enumerate(m["shape"]) if s != 1]
+                for f in ("dims", "shape", "coords"):
+                    m[f] = [m[f][j] for j in keep]
+        elif k == "getitem":
+            o = self.out_id()
+            sel = [[d, rand_sel(rng, m["coords"][dims.index(d)])] for d in rng.sample(dims, rng.randint(1, min(2, len(dims))))]
+            O.append({"op": "getitem", "obj": i, "sel": sel, "out": o})
+        elif k == "setitem":
+            sel = [[d, rand_sel(rng, m["coords"][dims.index(d)])] for d in rng.sample(dims, rng.randint(1, min(2, len(dims))))]
+            O.append({"op": "setitem", "obj": i, "sel": sel, "value": str(90001 + len(O))})
+        elif k == "binop_self":
+            o = self.out_id()
+            O.append({"op": "binop", "f": rng.choice(["add", "sub", "mul"]), "lhs": i, "rhs": i, "out": o})
+            self.meta[o] = {f: [list(x) if isinstance(x, list) else x for x in m[f]] for f in ("dims", "shape", "coords")}
+            self.meta[o]["unfolded"] = False
+        elif k == "binop_new":
+            # a second operand sharing a random subset of dims (same coords), in another order, plus maybe a new dim
+            if len(self.meta) >= self.max_objs:
+                return
+            sub = rng.sample(range(len(dims)), rng.randint(1, len(dims)))
+            bd = [dims[j] for j in sub]; bs = [m["shape"][j] for j in sub]; bc = [list(m["coords"][j]) for j in sub]
+            if rng.random() < 0.3 and len(bd) < 4:
+                nd = rng.choice([x for x in DIM_POOL + ["q1", "q2", "q3"] if x not in dims])
+                ext = rng.choice([e for e in (1, 2, 3, 4, 5, 6) if e not in m["shape"]] or [6])
+                bd.append(nd); bs.append(ext); bc.append([str(x) for x in range(ext)])
+            b = self.next_id; self.next_id += 1
+            O.append({"op": "new", "id": b, "dims": bd, "shape": bs, "coords": bc,
+                      "values": selfdesc_values(bs, rng.random() < 0.3, salt=3)})
+            self.meta[b] = {"dims": list(bd), "shape": list(bs), "coords": [list(c) for c in bc], "unfolded": False}
+            o = self.out_id()
+            lhs, rhs = (i, b) if rng.random() < 0.5 else (b, i)
+            O.append({"op": "binop", "f": rng.choice(["add", "sub", "mul", "truediv"]), "lhs": lhs, "rhs": rhs, "out": o})
+        elif k == "scalarop":
+            o = self.out_id()
+            O.append({"op": "scalarop", "f": rng.choice(["add", "sub", "mul", "truediv"]), "obj": i,
+                      "scalar": rng.choice(["2", "-3", "1/2", "1,2", "4"]), "out": o,
+                      **({"refl": True} if rng.random() < 0.5 else {})})
+        elif k == "arrayop":
+            o = self.out_id()
+            O.append({"op": "arrayop", "f": rng.choice(["add", "sub", "mul"]), "obj": i, "shape": list(m["shape"]),
+                      "values": selfdesc_values(m["shape"], False, salt=7), "out": o,
+                      **({"refl": True} if rng.random() < 0.5 else {})})
+        elif k == "method":
+            o = self.out_id()
+            O.append({"op": "method", "f": rng.choice(["sum", "maximum", "minimum", "argmax", "argmin",
+                                                       "argmax_index", "argmin_index", "cumulative_sum"]),
+                      "obj": i, "dim": rng.choice(dims), "out": o})
+        elif k == "np_reduce":
+            o = self.out_id()
+            ax = rng.choice([None, rng.choice(dims), rng.randrange(len(dims)), -1 - rng.randrange(len(dims))])
+            O.append({"op": "np_reduce", "f": rng.choice(["sum", "mean", "max", "min", "prod", "var", "ptp", "median", "any", "all"]),
+                      "obj": i, "axis": ax, "out": o})
+        elif k == "np_unary":
+            o = self.out_id()
+            O.append({"op": "np_unary", "f": rng.choice(["negative", "conj", "square", "positive"]), "obj": i, "out": o})
+        elif k == "np_scalar":
+            o = self.out_id()
+            O.append({"op": "np_scalar", "f": rng.choice(["add", "subtract", "multiply"]), "obj": i,
+                      "scalar": rng.choice(["2", "-3", "1/2"]), "out": o, **({"refl": True} if rng.random() < 0.5 else {})})
+        elif k == "np_binary":
+            if len(self.meta) >= self.max_objs:
+                return
+            b = self.next_id; self.next_id += 1
+            O.append({"op": "new", "id": b, "dims": list(dims), "shape": list(m["shape"]),
+                      "coords": [list(c) for c in m["coords"]], "values": selfdesc_values(m["shape"], False, salt=11)})
+            self.meta[b] = {"dims": list(dims), "shape": list(m["shape"]), "coords": [list(c) for c in m["coords"]], "unfolded": False}
+            o = self.out_id()
+            O.append({"op": "np_binary", "f": rng.choice(["add", "subtract", "multiply"]), "lhs": i, "rhs": b, "out": o})
+        elif k == "copy":
+            if len(self.meta) < self.max_objs:
+                o = self.out_id()
+                O.append({"op": "copy", "obj": i, "out": o})
+                self.meta[o] = {"dims": list(dims), "shape": list(m["shape"]), "coords": [list(c) for c in m["coords"]], "unfolded": False}
+        elif k == "unfold_fold":
+            O.append({"op": "unfold", "obj": i, "dim": rng.choice(dims)})
+            O.append({"op": "fold", "obj": i})
+        elif k == "concat":
+            if len(self.meta) >= self.max_objs:
+                return
+            b = self.next_id; self.next_id += 1
+            O.append({"op": "new", "id": b, "dims": list(dims), "shape": list(m["shape"]),
+                      "coords": [list(c) for c in m["coords"]], "values": selfdesc_values(m["shape"], False, salt=13)})
+            self.meta[b] = {"dims": list(dims), "shape": list(m["shape"]), "coords": [list(c) for c in m["coords"]], "unfolded": False}
+            o = self.out_id()
+            O.append({"op": "concat", "objs": [i, b], "dim": "cc", "coord": rng.choice([None, ["5", "7"]]), "out": o})
+        elif k == "concatenate":
+            if len(self.meta) >= self.max_objs:
+                return
+            dm = rng.choice(dims); kx = dims.index(dm)
+            sb = list(m["shape"]); sb[kx] = rng.randint(1, 2)
+            cb = [list(c) for c in m["coords"]]
+            top = max(Fraction(x) for x in m["coords"][kx])
+            cb[kx] = [str(top + 1 + t) for t in range(sb[kx])]
+            b = self.next_id; self.next_id += 1
+            O.append({"op": "new", "id": b, "dims": list(dims), "shape": sb, "coords": cb,
+                      "values": selfdesc_values(sb, False, salt=17)})
+            self.meta[b] = {"dims": list(dims), "shape": list(sb), "coords": [list(c) for c in cb], "unfolded": False}
+            if rng.random() < 0.6 and len(dims) > 1:
+                arg = partial_orders(rng, dims)
+                O.append({"op": "reorder", "obj": b, "dims": arg}); self.permute(b, arg + [d for d in dims if d not in arg])
+            O.append({"op": "concatenate", "obj": i, "other": b, "dim": dm})
+            m["shape"][kx] += sb[kx]; m["coords"][kx] = m["coords"][kx] + cb[kx]
+        elif k == "split":
+            kx = rng.randrange(len(dims))
+            n = m["shape"][kx]
+            divs = [q for q in (2, 3) if n % q == 0 and n // q >= 1]
+            if divs and "sp" not in dims and len(dims) < 4:
+                q = rng.choice(divs)
+                O.append({"op": "split", "obj": i, "dim": dims[kx], "new": "sp", "coord": [str(t) for t in range(q)]})
+                self.forget(i)
+        elif k == "set_attr":
+            O.append({"op": rng.choice(["set_attr", "set_dattr"]), "obj": i, "key": rng.choice(["k1", "nmr_frequency", "k2"]),
+                      "value": rng.choice(["5", "'abc'", "[1,2]", "None"])})
+        elif k == "add_hist":
+            O.append({"op": "add_hist", "obj": i, "name": "manual", "keys": ["p"]})
+        elif k == "set_value":
+            O.append({"op": "set_value", "obj": i, "flat": 0, "value": str(70001 + len(O))})
+
+    def permute(self, i, new_dims):
+        m = self.meta[i]
+        idx = [m["dims"].index(d) for d in new_dims]
+        for f in ("dims", "shape", "coords"):
+            m[f] = [m[f][j] for j in idx]
+
+    def forget_order(self, i):
+        """the order of dims of object i is no longer tracked: drop and let later steps pick others"""
+        self.meta.pop(i, None)
+
+    def resort(self, i):
+        self.meta.pop(i, None)
+
+
+def history(rng, length, allow=None, cplx=None, max_objs=4):
+    h = Hist(rng, max_objs=max_objs, cplx=cplx)
+    h.fresh(attrs=rng.random() < 0.5, hist=rng.randint(0, 3))
+    if rng.random() < 0.5:
+        h.fresh()
+    for _ in range(length):
+        h.step(allow)
+        if not h.meta:
+            h.fresh()
+    return h.ops
